@@ -23,6 +23,10 @@ pub tracked struct World {
     pub ghost ticket: bool,         // the current item was handed out and has not decremented fns_remaining yet
     pub ghost done_tx_gone: bool,   // the scheduler's done sender was taken out of its cell (monotone)
     pub ghost chans_created: int,   // mpsc::channel calls so far in this run (0: ready channel, 1: done channel)
+    pub ghost self_woken: bool,     // a poll of a tokio primitive returned Pending although it could have made progress (tokio's
+                                    // cooperative budget was used up): tokio then schedules a wake-up of the task by itself - deferred to
+                                    // the moment the task yields - so the task is polled again without any channel event (monotone;
+                                    // audited on a real runtime by audit_deps A11)
 }
 
 // ---- per-item event trace and stable facts (used by the item closures, DESIGN §5) ----
